@@ -52,7 +52,8 @@ def cases(draw):
             'json': draw(st.sampled_from([None, None, 'plain', 'after_failure',
                                           'after_failure_elsewhere'])),
             'indent': draw(st.sampled_from([None, None, 2, 4])),
-            'stream': draw(st.booleans())}
+            'stream': draw(st.booleans()),
+            'partial': draw(st.one_of(st.none(), st.integers(0, 3)))}
 
 
 def snapshot(v, seen=None):
@@ -167,6 +168,36 @@ def check(case, ctx):
     desc = lambda: 'value: %s\n  model: %s' % (canon(value), spec)
     before = snapshot(value)
     m.reset()
+    # a dump function that knows only part of the classes (a registered base
+    # class left out) writes the same text before and after another function
+    # that knows all of them has been created and used
+    if case.get('partial') is not None:
+        regnames = {c.__name__ for c in m.registered}
+        based = sorted({b for c in spec['classes'] for b in c.get('bases', []) if b in regnames})
+        if based:
+            drop = based[case['partial'] % len(based)]
+            part = yatiml.dumps_function(*[c for c in m.registered if c.__name__ != drop])
+            try:
+                p1 = part(value)
+            except Exception:
+                ctx.count('partial_function_cannot_dump_value')
+            else:
+                full = yatiml.dumps_function(*m.registered)
+                try:
+                    full(value)
+                except Exception:
+                    pass
+                try:
+                    p2 = part(value)
+                except Exception as e:
+                    p2 = 'raised %s: %s' % (type(e).__name__, e)
+                ctx.count('partial_function_before_and_after_a_full_one')
+                if p1 != p2:
+                    ctx.finding('determinism', 'text_changes_when_another_dump_function_exists',
+                                'a dump function without class %s wrote\n    %r\n  and, after a function '
+                                'registering all classes had been created and used,\n    %r\n  %s'
+                                % (drop, p1, p2, desc()))
+                    return
     try:
         text = m.dumps(value)
         text2 = m.dumps(value)
